@@ -203,6 +203,7 @@ func init() {
 			return fmt.Sprintf("active=%d total=%d", n, len(x.A.Swaps()))
 		},
 		NeedOutcomes: []string{"active=1", "active=2"},
+		Extra:        c10Sched,
 	})
 }
 
